@@ -102,6 +102,11 @@ func (g *GoChannel) Publish(topic string, messages ...*message.Message) error {
 
 	if g.config.Persistent {
 		g.persistedMessagesLock.Lock()
+		if g.persistedMessages == nil {
+			// closed after the check at the top of Publish
+			g.persistedMessagesLock.Unlock()
+			return errors.New("Pub/Sub closed")
+		}
 		if _, ok := g.persistedMessages[topic]; !ok {
 			g.persistedMessages[topic] = make([]*message.Message, 0)
 		}
@@ -317,7 +322,9 @@ func (g *GoChannel) Close() error {
 	verifhook.At("gochannel.close.waited", "", "")
 
 	g.logger.Info("Pub/Sub closed", nil)
+	g.persistedMessagesLock.Lock()
 	g.persistedMessages = nil
+	g.persistedMessagesLock.Unlock()
 
 	return nil
 }
